@@ -6,6 +6,9 @@
 2. The same pages / configurations are run through the real code: np.rot90 as applied by LayoutEngine.detect +
    LayoutEngine.rotate_layout for every pixel; LayoutEngine.detect (engine built with __new__, stub network rendering the
    ridges into the maps of the rotated image).  TLC validates every recorded execution against LayoutDecode_Trace.
+3. Scale + history (kind "scale" of LayoutDecode_Trace): a few sampled pages beyond the bounded spaces (300 / 523 / 1040 ridges in one
+   column, map rows / columns > 32767 and > 65535, coordinates > 65535, heights > 255 map px) through ONE long-lived LayoutEngine, some after a
+   call that raises half-way, the first page once more at the end; TLC judges every ridge of every page by the same LineMatches.
 NOT covered: smoothing / NMS / percentiles on arbitrary real-valued maps, sloped ridges, clustering (see notes/C18.md).
 """
 import re
@@ -19,6 +22,10 @@ PIX_CLAUSES = {1: "exception", 2: "rot90-not-the-modelled-bijection", 3: "region
                5: "outlines-not-within-1px", 6: "exact-rotate-layout"}
 RIDGE_CLAUSES = {7: "detect-vs-repeated-parse-of-same-maps-not-within-1px", 1: "exception", 2: "line-count", 3: "line-position-or-heights", 4: "regions", 5: "exact-network-saw-rotated-page",
                  6: "exact-end-points"}
+
+
+SCALE_CLAUSES = {1: "exception", 2: "line-count", 3: "line-position-or-heights", 4: "regions",
+                 7: "detect-vs-parse-of-same-maps-not-within-1px"}
 
 
 def _init_count(res):
@@ -50,29 +57,40 @@ def selftests(ctx, mh, mw, rb):
 
 
 def signature(tr, prog):
-    table = PIX_CLAUSES if tr["mode"] == "pixels" else RIDGE_CLAUSES
+    table = PIX_CLAUSES if tr["mode"] == "pixels" else (SCALE_CLAUSES if tr["mode"] == "scale" else RIDGE_CLAUSES)
     name = table.get(prog - 10, "step%d" % prog)
     if tr["outcome"] != "ok":
         name = tr["outcome"]
+    if tr["mode"] == "scale":        # class of the page: through detect or parse alone, more than 255 ridges or a long / tall one
+        return "scale:%s:%s:%s" % (name, tr["via"], "many-ridges" if len(tr["ridges"]) > 255 else "few-large-ridges")
     return "%s:%s:rot%d" % (tr["mode"], name, tr["k"])
 
 
 def describe(tr):
     if tr["mode"] == "pixels":
         return "page %dx%d (HxW) rot=%d" % (tr["H"], tr["W"], tr["k"])
+    if tr["mode"] == "scale":
+        return "%s%s rot=%d ds=%d endpoints=%s maps %dx%d with %d ridges (rows %d..%d, columns %d..%d) on a long-lived engine -> %d lines %s" % (
+            tr["via"], " (page decoded a second time)" if tr.get("again") else "", tr["k"], tr["ds"], tr["ep"], tr["mh"], tr["mw"],
+            len(tr["ridges"]), tr["ridges"][0]["y"], tr["ridges"][-1]["y"], min(r["x0"] for r in tr["ridges"]),
+            max(r["x1"] for r in tr["ridges"]), len(tr["lines"]), [(l["pts"][0], l["pts"][-1], l["h"]) for l in tr["lines"]][:2])
     return "rot=%d ds=%d endpoints=%s ridges=%s -> %d lines %s" % (
         tr["k"], tr["ds"], tr["ep"], [(r["y"], r["x0"], r["x1"], r.get("dy", 0)) for r in tr["ridges"]], len(tr["lines"]),
         [(l["pts"][0], l["pts"][-1], l["h"]) for l in tr["lines"]][:3])
 
 
-def judge(ctx, name, consts, cases, traces):
-    sh = max(1, min(5, len(traces) // 800))
+def judge(ctx, name, consts, cases, traces, exact=True):
+    sh = max(1, min(5, len(traces) // 800)) if exact else min(3, len(traces))
     acc, rej = ctx.validate("LayoutDecode_Trace", traces, constants=dict(consts, Level="property"), shards=sh,
                             label="LayoutDecode_Trace %s property" % name)
     rejected = {i for i, _ in rej}
     for i, prog in rej:
+        if traces[i]["mode"] == "scale" and prog == 19:
+            raise MachineryFailure("C18 scale: the sampled page %r is outside the scope of the statement (ScaleInScope)" % (cases[i],))
         ctx.violation({"space": name, "consts": _plain(consts), "case": cases[i]}, signature(traces[i], prog),
                       "clause %s fails; %s" % (signature(traces[i], prog), describe(traces[i])))
+    if not exact:                      # (no detailed model of the sampled large pages)
+        return rej
     before = ctx.traces_validated
     _, rej2 = ctx.validate("LayoutDecode_Trace", traces, constants=dict(consts, Level="exact"), shards=sh,
                            label="LayoutDecode_Trace %s exact" % name)
@@ -102,6 +120,7 @@ def run(ctx):
                "clustering of lines into regions are NOT covered; ridges are straight (flat, or parallel with a rise of 18 map px over 58), Gaussian profile",
                "ridge length >= 6 map px without end-point responses, >= 10 with them (the responses erase two pixels at each end)",
                "tolerances: end points 3 map px + 1 px, row 1 map px + 1 px, heights 1 % of a map pixel, regions 6 px",
+               "scale: sampled pages only (6 pages + 1 repeated in the quick tier), ridges flat, one column; one LayoutEngine object for all of them",
                "LayoutEngine built with __new__ and the constructor's default parameters; np.random seeded (tie-breaker of the left-to-right sort)")
     selftests(ctx, mh, mw, rb)
     # ---- pixels
@@ -138,6 +157,7 @@ def run(ctx):
             ctx.count(1, (sname, c["k"], c["ds"], c["ep"], c["rm"], tuple((r["y"], r["x0"], r["x1"], r["dy"]) for r in c["ridges"]))
                       if c["k"] > 0 else None)
     rc = K.tla_constants(rb, "ridges", "ok")
+    run_scale(ctx, rc)
     ctx.sample({"space": "ridges", "trace": traces[len(traces) // 2]}, limit=4)
     ctx.notes["explanation"] = ("TLC exhaustive on LayoutDecode.tla (pixels: RotIsBijection, BackWithinOnePixel; ridges: OnePerRidge, ScaledByDs, "
                                 "BackToOriginal, InsideOriginal); the same pages and ridge configurations executed by np.rot90 inside "
@@ -145,8 +165,30 @@ def run(ctx):
                                 "LayoutDecode_Trace (property level; exact level reported as drift)")
 
 
+def run_scale(ctx, rc, seq=None, only=None):
+    """sampled pages beyond the bounded spaces, all through one long-lived engine (K.run_scale_sequence); a case = the sequence of
+    page parameters + the index of the page, so that a replay re-creates the history of the engine"""
+    seq = seq if seq is not None else K.scale_sequence(ctx.tier, ctx.seed)
+    traces = K.run_scale_sequence(seq, upto=only)
+    idx = list(range(len(traces))) if only is None else [only]
+    cases = [{"mode": "scale", "seq": seq, "index": i} for i in idx]
+    rej = judge(ctx, "scale", rc, cases, [traces[i] for i in idx], exact=False)
+    if only is None and 0 not in {i for i, _ in rej}:
+        def corrupt(tr):                      # line 256 of the page gets the position of line 1 (two ridges share a line, one has none)
+            tr["lines"][255] = dict(tr["lines"][255], pts=tr["lines"][0]["pts"], tl=tr["lines"][0]["tl"])
+            return tr
+        ctx.selftest_corrupt("LayoutDecode_Trace", traces[0], corrupt, constants=dict(rc, Level="property"))
+    for i in idx:
+        ctx.count(1, ("scale", i, seq[i]["n"], seq[i]["mw"], seq[i]["ds"], seq[i]["k"], seq[i]["via"]))
+    if only is None:
+        ctx.sample({"space": "scale", "page": seq[0], "lines": len(traces[0]["lines"])}, limit=1)
+
+
 def replay(ctx, case):
     c = case["case"]
+    if c.get("mode") == "scale":
+        run_scale(ctx, _consts(case["consts"]), seq=c["seq"], only=c["index"])
+        return
     tr = K.run_case(c)
     judge(ctx, case["space"], _consts(case["consts"]), [c], [tr])
     ctx.count(1, None)
